@@ -9,8 +9,13 @@ EXTENDS BrokerMon, Json, IOUtils
 
 Rec == ndJsonDeserialize(IOEnv.TRACE)
 N == Len(Rec)
-VARIABLES l, cur, synced, viol, skipped
-vars == <<l, cur, synced, viol, skipped>>
+VARIABLES l, cur, synced, viol, skipped,
+          mode,      \* "route" | "ctl" | "recover"  (which rig produced the current run)
+          inst,      \* control plane: [proxy -> [C |-> epoch, R |-> epoch]] installed since the proxy's last restart
+          commits,   \* descriptors whose commit succeeded
+          expect,    \* [coordinator -> [dp, sp, seen]] destination-before-source bookkeeping
+          checking   \* after "converged_check": the next observation is the convergence verdict
+vars == <<l, cur, synced, viol, skipped, mode, inst, commits, expect, checking>>
 
 NoState == [kind |-> "none"]
 
@@ -73,22 +78,91 @@ Synced(e, st) ==
     \A i \in DOMAIN e.epochs :
         \E j \in DOMAIN st.proxies : st.proxies[j].addr = e.epochs[i].proxy /\ st.proxies[j].epoch = e.epochs[i].epoch
 
+\* ---- C07 / C13: control plane events ----
+With(f, k, v) == [x \in (DOMAIN f) \cup {k} |-> IF x = k THEN v ELSE f[x]]
+IsSet(e) == e.kind = "call" /\ Len(e.cmd) >= 4 /\ e.cmd[2] \in {"SETCLUSTER", "SETREPL"}
+MsgKind(e) == IF e.cmd[2] = "SETCLUSTER" THEN "C" ELSE "R"
+\* epoch and flags positions: SETCLUSTER v2 <epoch> <flags> ... ; SETREPL <epoch> <flags> ...
+EpochTok(e) == IF e.cmd[2] = "SETCLUSTER" THEN e.cmd[4] ELSE e.cmd[3]
+FlagsTok(e) == IF e.cmd[2] = "SETCLUSTER" THEN e.cmd[5] ELSE e.cmd[4]
+\* decimal string -> number (epochs are small)
+RECURSIVE StrToNat(_, _)
+Digits == <<"0","1","2","3","4","5","6","7","8","9">>
+DigitVal(c) == (CHOOSE i \in 1..10 : Digits[i] = c) - 1
+StrToNat(s, acc) == IF s = "" THEN acc ELSE StrToNat(SubSeq(s, 2, Len(s)), acc * 10 + DigitVal(SubSeq(s, 1, 1)))
+Installed(p, k) == IF p \in DOMAIN inst THEN inst[p][k] ELSE 0
+
 Init == l = 1 /\ cur = NoState /\ synced = FALSE /\ viol = {} /\ skipped = 0
+        /\ mode = "route" /\ inst = <<>> /\ commits = {} /\ expect = <<>> /\ checking = FALSE
 Step ==
     /\ l <= N
     /\ LET e == Rec[l] IN
-       CASE e.kind = "state" -> cur' = e /\ synced' = FALSE /\ UNCHANGED <<viol, skipped>>
-         [] e.kind = "reset" -> cur' = NoState /\ synced' = FALSE /\ UNCHANGED <<viol, skipped>>
-         [] e.kind = "epochs" -> synced' = (cur.kind = "state" /\ Synced(e, cur)) /\ UNCHANGED <<cur, viol, skipped>>
+       CASE e.kind = "state" -> cur' = e /\ synced' = FALSE /\ UNCHANGED <<viol, skipped, mode, inst, commits, expect, checking>>
+         [] e.kind = "reset" ->
+              /\ cur' = NoState /\ synced' = FALSE /\ inst' = <<>> /\ commits' = {} /\ expect' = <<>> /\ checking' = FALSE
+              /\ mode' = (IF "mode" \in DOMAIN e THEN e.mode ELSE "route")
+              /\ UNCHANGED <<viol, skipped>>
+         [] e.kind = "epochs" ->
+              LET ok == cur.kind = "state" /\ Synced(e, cur) IN
+              /\ synced' = ok
+              /\ viol' = viol \cup (IF checking /\ ~ok
+                                     THEN {<<l, IF mode = "recover" THEN "C13.not_reconverged" ELSE "C07.not_converged">>} ELSE {})
+              /\ UNCHANGED <<cur, skipped, mode, inst, commits, expect, checking>>
          [] e.kind = "probe" ->
               IF synced /\ HasView(cur, e.cluster)
-              THEN viol' = viol \cup {<<l, x>> : x \in C02_Probe(e, cur)} /\ UNCHANGED <<cur, synced, skipped>>
-              ELSE skipped' = skipped + 1 /\ UNCHANGED <<cur, synced, viol>>
+              THEN LET v == C02_Probe(e, cur) IN
+                   /\ viol' = viol \cup {<<l, x>> : x \in v}
+                                    \cup (IF checking /\ v # {} THEN {<<l, IF mode = "recover" THEN "C13.routing_wrong_after_recovery"
+                                                                          ELSE "C07.routing_differs_after_convergence">>} ELSE {})
+                   /\ UNCHANGED <<cur, synced, skipped, mode, inst, commits, expect, checking>>
+              ELSE skipped' = skipped + 1 /\ UNCHANGED <<cur, synced, viol, mode, inst, commits, expect, checking>>
          [] e.kind = "adv" ->
               IF synced /\ HasView(cur, e.cluster)
-              THEN viol' = viol \cup {<<l, x>> : x \in C14_Adv(e, cur)} /\ UNCHANGED <<cur, synced, skipped>>
-              ELSE skipped' = skipped + 1 /\ UNCHANGED <<cur, synced, viol>>
-         [] OTHER -> UNCHANGED <<cur, synced, viol, skipped>>
+              THEN viol' = viol \cup {<<l, x>> : x \in C14_Adv(e, cur)} /\ UNCHANGED <<cur, synced, skipped, mode, inst, commits, expect, checking>>
+              ELSE skipped' = skipped + 1 /\ UNCHANGED <<cur, synced, viol, mode, inst, commits, expect, checking>>
+         [] e.kind = "restart" -> inst' = With(inst, e.proxy, [C |-> 0, R |-> 0]) /\ UNCHANGED <<cur, synced, viol, skipped, mode, commits, expect, checking>>
+         [] IsSet(e) ->
+              LET k == MsgKind(e)  ep == StrToNat(EpochTok(e), 0)  p == e.to
+                  ok == e.reply.t = "simple"
+                  forced == FlagsTok(e) \in {"FORCE", "FORCE,COMPRESS"}
+                  \* destination-before-source: a coordinator that has just committed a migration
+                  who == e.from
+                  ex == IF who \in DOMAIN expect THEN expect[who] ELSE [dp |-> "", sp |-> "", seen |-> TRUE]
+              IN /\ viol' = viol
+                       \cup (IF ok /\ ~forced /\ ep <= Installed(p, k) THEN {<<l, "C07.older_metadata_installed">>} ELSE {})
+                       \cup (IF ~ex.seen /\ p = ex.sp /\ ex.sp # ex.dp THEN {<<l, "C07.source_updated_before_destination">>} ELSE {})
+                 /\ inst' = IF ok THEN With(inst, p, [C |-> IF k = "C" THEN ep ELSE Installed(p, "C"),
+                                                      R |-> IF k = "R" THEN ep ELSE Installed(p, "R")]) ELSE inst
+                 /\ expect' = IF who \in DOMAIN expect /\ p = ex.dp THEN With(expect, who, [ex EXCEPT !.seen = TRUE]) ELSE expect
+                 /\ UNCHANGED <<cur, synced, skipped, mode, commits, checking>>
+         [] e.kind = "bcall" /\ e.call = "commit_migration" ->
+              LET d == <<e.arg.rl, e.arg.meta.epoch>>
+                  firstOk == e.res.first = "OK"
+                  secondOk == e.res.second = "OK"
+              IN /\ viol' = viol \cup (IF (firstOk /\ d \in commits) \/ (firstOk /\ secondOk) THEN {<<l, "C07.committed_twice">>} ELSE {})
+                 /\ commits' = IF firstOk \/ secondOk THEN commits \cup {d} ELSE commits
+                 /\ expect' = With(expect, e.who, [dp |-> e.arg.meta.dp, sp |-> e.arg.meta.sp, seen |-> FALSE])
+                 /\ UNCHANGED <<cur, synced, skipped, mode, inst, checking>>
+         [] e.kind = "round" -> expect' = (IF e.who \in DOMAIN expect THEN With(expect, e.who, [dp |-> "", sp |-> "", seen |-> TRUE]) ELSE expect)
+                                /\ UNCHANGED <<cur, synced, viol, skipped, mode, inst, commits, checking>>
+         [] e.kind = "recover" ->
+              /\ viol' = viol \cup
+                    (IF e.all_seen /\ ~(\A i \in DOMAIN e.served : \A j \in DOMAIN e.proxy_epochs : e.served[i].epoch > e.proxy_epochs[j].epoch)
+                     THEN {<<l, "C13.recovered_epoch_not_greater">>} ELSE {})
+              /\ UNCHANGED <<cur, synced, skipped, mode, inst, commits, expect, checking>>
+         [] e.kind = "converged_check" ->
+              /\ checking' = TRUE
+              /\ viol' = viol \cup (IF e.still_migrating THEN {<<l, IF mode = "recover" THEN "C13.migration_stuck_after_recovery" ELSE "C07.migration_not_finished">>} ELSE {})
+              /\ UNCHANGED <<cur, synced, skipped, mode, inst, commits, expect>>
+         [] e.kind = "roles" ->
+              \* replication roles held by each proxy = roles in the broker's current view (checked against the next state record by the epochs rule;
+              \* here: each reported node has exactly one role record)
+              /\ viol' = viol \cup (IF \A i \in DOMAIN e.proxies : \A a, b \in DOMAIN e.proxies[i].roles :
+                                         (a # b) => e.proxies[i].roles[a].node # e.proxies[i].roles[b].node
+                                     THEN {} ELSE {<<l, "C07.duplicate_role_record">>})
+              /\ UNCHANGED <<cur, synced, skipped, mode, inst, commits, expect, checking>>
+         [] e.kind = "ctl_end" -> checking' = FALSE /\ UNCHANGED <<cur, synced, viol, skipped, mode, inst, commits, expect>>
+         [] OTHER -> UNCHANGED <<cur, synced, viol, skipped, mode, inst, commits, expect, checking>>
     /\ l' = l + 1
     /\ (l = N) => JsonSerialize(IOEnv.OUT, [n |-> N, skipped |-> skipped',
                      viol |-> SetToSeq({[line |-> v[1], mon |-> v[2]] : v \in viol'}), div |-> <<>>])
